@@ -331,7 +331,7 @@ def pDraw (nd : Nat) : P Draw := do
   | "m" => do let v ← pN nd pF; pure (Draw.mutant v)
   | "g" => do let l ← pList pNat; pure (Draw.parents l)
   | "I" => do let l ← pList (pN nd pInt); pure (Draw.inits l)
-  | "v" => do let v ← pList pF; pure (Draw.spiral v)
+  | "v" => do let v ← pList pF; pure (Draw.vec v)
   | k => throw s!"draw? {k}"
 
 def showNatLists (l : List (List Nat)) : String := showList (showList toString) l
